@@ -260,3 +260,20 @@ def run(F, rep):
             rep.check(ok, 'C08.P1', '%s|%s' % (g.name, name), g.where(c), '%s: after `%s` some path reaches the exit without pop_back (%s)' % (g.short, render(c)[:40], detail), 'balanced (%s)' % detail)
     if n_p < 2:
         raise AnalysisBroken('C08.P1: path guards of the reducers vanished (%d found, 2 confirmed)' % n_p)
+
+    rep.rule('C08.G2', 'Units::compatible can answer true only for units that are both fully defined: every return that can be true is reached only where isDefined() held for both arguments '
+                       '(a shortcut such as "the same object is compatible with itself" in front of those gates contradicts scalingFactor, which still yields 0)')
+    cpf = F.fn1('libcellml::Units::compatible')
+    p1, p2 = cpf.params[0]['n'], cpf.params[1]['n']
+    n_g2 = 0
+    for r in cpf.walk():
+        if r.get('k') == 'Return' and r.get('c') and cpf.enclosing_lambda(r) is None:
+            e = r['c'][0]
+            if e.get('k') == 'Bool' and not e.get('v'):
+                continue
+            n_g2 += 1
+            conds = ff(cpf).rendered_conds_at(r) or set()
+            okd = all(any(('%s->isDefined()' % p_) in t and ((tr and not t.startswith('!')) or (not tr and t.startswith('!'))) for t, tr in conds) for p_ in (p1, p2))
+            rep.check(okd, 'C08.G2', 'compatible|return %s' % render(e)[:30], cpf.where(r), 'Units::compatible returns `%s` on a path where isDefined() was not established for both units (facts: %s)' % (render(e)[:30], sorted(conds)[:4]), 'behind isDefined() of both')
+    if n_g2 < 1:
+        raise AnalysisBroken('Units::compatible has no return that can be true')
